@@ -704,6 +704,42 @@ def runOp (w : World) (c : TCtl) (op : Op) : Except Panic World := do
     if (w.ths.caus.ahead s.readAccess).isSome then throw (.causality 11)
     let s := { s with writeAccess := s.writeAccess.join w.ths.caus, value := v }
     pure ((w.setObj o (.cell s)).complete .unit)
+  | .cellReadBegin ci =>
+    -- `Cell::start_read` (inside `rt::synchronize`)
+    let o := w.cellObj ci
+    let w := w.sync
+    let s ← w.getCell o
+    if s.isWriting then throw .cellBusy
+    if (w.ths.caus.ahead s.writeAccess).isSome then throw (.causality 9)
+    let s := { s with isReading := s.isReading + 1, readAccess := s.readAccess.join w.ths.caus }
+    pure ((w.setObj o (.cell s)).complete (.val s.value))
+  | .cellReadEnd ci =>
+    -- `Reading::drop` (no causality increment)
+    let o := w.cellObj ci
+    let s ← w.getCell o
+    if s.isReading == 0 || s.isWriting then throw (.internal 86)
+    if (w.ths.caus.ahead s.writeAccess).isSome then throw (.causality 9)
+    let s := { s with isReading := s.isReading - 1, readAccess := s.readAccess.join w.ths.caus }
+    pure ((w.setObj o (.cell s)).complete .unit)
+  | .cellWriteBegin ci v =>
+    -- `Cell::start_write`
+    let o := w.cellObj ci
+    let w := w.sync
+    let s ← w.getCell o
+    if s.isReading != 0 || s.isWriting then throw .cellBusy
+    if (w.ths.caus.ahead s.writeAccess).isSome then throw (.causality 10)
+    if (w.ths.caus.ahead s.readAccess).isSome then throw (.causality 11)
+    let s := { s with isWriting := true, writeAccess := s.writeAccess.join w.ths.caus, value := v }
+    pure ((w.setObj o (.cell s)).complete .unit)
+  | .cellWriteEnd ci =>
+    -- `Writing::drop`
+    let o := w.cellObj ci
+    let s ← w.getCell o
+    if !s.isWriting || s.isReading != 0 then throw (.internal 87)
+    if (w.ths.caus.ahead s.writeAccess).isSome then throw (.causality 10)
+    if (w.ths.caus.ahead s.readAccess).isSome then throw (.causality 11)
+    let s := { s with isWriting := false, writeAccess := s.writeAccess.join w.ths.caus }
+    pure ((w.setObj o (.cell s)).complete .unit)
   | .lock mi =>
     let o := w.mutexObj mi
     if c.stage == 0 then
